@@ -306,6 +306,41 @@ var cases = []caseDef{
 		}
 		return iv(acc)
 	}, same},
+	// callbacks that USE the index argument (its value is part of the documented contract)
+	{"reduce(function($acc, $x, $i) { return $acc + $x + $i * 100; })", "", func(r []int, a, b, c int) V {
+		if len(r) == 0 {
+			return V{K: 'n'}
+		}
+		acc := r[0]
+		for i := 1; i < len(r); i++ {
+			acc += r[i] + i*100
+		}
+		return iv(acc)
+	}, same},
+	{"reduce(function($acc, $x, $i) { return $acc + $x + $i * 100; }, $a)", "", func(r []int, a, b, c int) V {
+		acc := a
+		for i := 0; i < len(r); i++ {
+			acc += r[i] + i*100
+		}
+		return iv(acc)
+	}, same},
+	{"filter(function($x, $i) { return $i != 1; })", "", func(r []int, a, b, c int) V {
+		var out []int
+		for i, x := range r {
+			if i != 1 {
+				out = append(out, x)
+			}
+		}
+		return lv(ints(out))
+	}, same},
+	{"findIndex(function($x, $i) { return $i == 2; })", "", func(r []int, a, b, c int) V {
+		if len(r) > 2 {
+			return iv(2)
+		}
+		return iv(-1)
+	}, same},
+	{"every(function($x, $i) { return $i < 2; })", "", func(r []int, a, b, c int) V { return V{K: 'b', B: len(r) <= 2} }, same},
+	{"some(function($x, $i) { return $i == 1; })", "", func(r []int, a, b, c int) V { return V{K: 'b', B: len(r) >= 2} }, same},
 }
 
 func rev(r []int) []int {
